@@ -116,7 +116,54 @@ def build_plain(o, layout=None):
     return assemble(o, vals, m, ds, list(o['shape']), layout)
 
 
+WARMERS = ('antimask', 'wod', 'corners', 'slicer')
+
+
+def warm(q, names):
+    """query cached accessors BEFORE the operation under test (results must not inherit stale cache entries)"""
+    for nme in names or ():
+        try:
+            getattr(q, nme)
+            for d in q._derivs_.values():
+                getattr(d, nme)
+        except Exception:
+            pass
+    return q
+
+
+def cache_problem(r):
+    """None, or a description of a cached accessor of a RESULT that disagrees with its arrays"""
+    objs = list(r) if isinstance(r, (tuple, list)) else [r]
+    for q in objs:
+        if not isinstance(q, Qube):
+            continue
+        for x in [q] + list(q._derivs_.values()):
+            m = expanded_mask(x)
+            try:
+                am = np.broadcast_to(np.asarray(x.antimask), x._shape_)
+            except Exception as e:
+                return 'antimask raised %s' % type(e).__name__
+            if not np.array_equal(am, ~m):
+                return 'antimask disagrees with the mask'
+            w = x.wod
+            if w._derivs_ or tuple(w._shape_) != tuple(x._shape_) or not np.array_equal(expanded_mask(w), m) \
+                    or not np.array_equal(np.asarray(w._values_), np.asarray(x._values_)):
+                return 'wod disagrees with the object'
+            try:
+                fresh = x.clone(recursive=False)
+                a, b = x.corners, fresh.corners
+                if a != b:
+                    return 'corners disagree with a fresh clone: %s vs %s' % (a, b)
+            except Exception:
+                pass
+    return None
+
+
 def build(o):
+    return warm(build_cold(o), o.get('warm'))
+
+
+def build_cold(o):
     layout = o.get('layout')
     if not layout or layout.get('kind') != 'hist':
         return build_plain(o, layout)
